@@ -379,7 +379,7 @@ func GenImageSpec(r *Rng, maxBlocks int) ImageSpec {
 	s := ImageSpec{V2: r.Chance(3, 5)}
 	if s.V2 {
 		if r.Chance(1, 3) {
-			s.DataPad = Pick(r, []int{1, 7, 100})
+			s.DataPad = Pick(r, []int{1, 7, 100, 512, 1024, 4096})
 		}
 		if r.Chance(1, 3) {
 			s.IndexPad = Pick(r, []int{1, 9, 64})
